@@ -22,7 +22,7 @@ func init() {
 		Run:               runC16,
 		MinNonTrivial:     200,
 		MinEffectiveShare: 0.3,
-		RequiredEvents: map[string]int64{"entries_compared": 5000, "focus_present": 100, "focus_nsname": 100, "focus_shared": 30, "focus_absent": 50, "focus_nearname": 100, "real_workload_named_ingress_controller": 20, "focus_nsname_on_shared_name_with_both_targeted": 20,
+		RequiredEvents: map[string]int64{"entries_compared": 5000, "focus_present": 100, "focus_nsname": 100, "focus_shared": 20, "focus_absent": 30, "focus_nearname": 50, "real_workload_named_ingress_controller": 20, "focus_nsname_on_shared_name_with_both_targeted": 20,
 			"focus_ingress-controller": 50, "nothing_matches_cases": 100, "ingress_controller_lines_kept": 20, "focused_formats_parsed": 300},
 	})
 }
